@@ -10,6 +10,6 @@ fi
 mkdir -p /verif/.build/gen
 $T -repo /repo -out /verif/.build/gen 1>&2
 # only touch the .v files when their content changed (keeps make incremental)
-for f in handlers perms nondet; do
+for f in handlers perms nondet genesis; do
   if ! cmp -s /verif/.build/gen/$f.v /verif/coq/Gen/$f.v; then cp /verif/.build/gen/$f.v /verif/coq/Gen/$f.v; fi
 done
